@@ -26,6 +26,11 @@ TEXT = {
    level_text='~1.6*10^5 generated (tree, configuration) cases per quick run and direction: every document written must decode per the configured encoding/BOM, be accepted by the independent parser and yield the same names, order, nesting, scalar values and attributes; pretty output must differ from compact only by the configured padding; every re-rendering of the same data by the independent emitter (white space, escapes / character references / CDATA, member order, numeric spelling, declaration, encoding, BOM; each first validated by the independent parser) must load to the same value from memory and from streams.',
    level_note=_NOTE),
 
+ 'C20': dict(engine='pbt', design_ref='DESIGN.md 5/C20',
+   technique='fault-injection property-based testing: generated scenarios with enumerated fault positions (truncation length, index of the failing operator new, byte at which a streambuf fails), every case in a forked child whose exit status is part of the oracle',
+   level_text='~8*10^3 isolated cases per quick run, each enumerating one, a window of, or all fault positions of its scenario (about 10^5 injected faults): the caller must see a std::exception (or, for an absorbed allocation failure, exactly the fault-free result); the child must not call std::terminate, abort, trip ASan/UBSan, exceed its CPU budget or leak at exit; MessagePack must reject every strict prefix.',
+   level_note=_NOTE),
+
  'C09': dict(engine='pbt', design_ref='DESIGN.md 5/C09',
    technique='property-based testing in both directions against an independent strict RFC 4180 parser and free-choice writer',
    level_text='~2*10^5 generated tables per quick run: what the library writes (decoded per configured encoding/BOM) must parse under a strict RFC 4180 reference into exactly the original header and cells; what an independent writer renders with random quoting, LF/CRLF, final break and column order must load (by name, into maps and a typed struct with a different request order) to the same rows from memory and from encoded streams; records with a wrong field count must be rejected with ParsingError.',
